@@ -102,7 +102,10 @@ func (p *PathAttributePrefixSID) DecodeFromBytes(data []byte, options ...*Marsha
 		return err
 	}
 
-	for len(tlvs) >= prefixSIDtlvHdrLen {
+	// every octet of the value belongs to a TLV: a trailing TLV header whose
+	// declared length does not fit is malformed, not ignorable (TLV.DecodeFromBytes
+	// reports both the short header and the overrunning value)
+	for len(tlvs) > 0 {
 		t := &TLV{}
 		_, err := t.DecodeFromBytes(tlvs)
 		if err != nil {
